@@ -489,7 +489,7 @@ func c03(r *mon.Run) {
 	// and a bare star as the only member of a dotted multi-select: each spelled minimally, fully parenthesised and with white space
 	{
 		kw := func(n string) *gen.Expr { return &gen.Expr{K: gen.KField, Name: n} }
-		names := []string{"true", "false", "null"}
+		names := []string{"true", "false", "null", "not", "and", "or"}
 		var kts []*gen.Expr
 		for _, x := range names {
 			for _, y := range names {
@@ -500,7 +500,9 @@ func c03(r *mon.Run) {
 				kts = append(kts, gen.Or(kw(x), kw(y)), gen.And(kw(x), kw(y)), gen.Pipe(kw(x), kw(y)), gen.Chain(kw(x), gen.Step{K: gen.SField, Name: y}), gen.MultiList(kw(x), kw(y)), gen.Func("not_null", kw(x), kw(y)),
 					gen.MultiHash([]gen.Key{{Name: x}}, []*gen.Expr{kw(y)}), gen.Chain(kw(x), gen.StFilter(kw(y))), gen.Chain(kw(x), gen.StIndex(0), gen.Step{K: gen.SField, Name: y}), gen.Func("sort_by", kw(x), gen.ExpRef(kw(y))))
 			}
-			kts = append(kts, kw(x), gen.Not(kw(x)), gen.Chain(kw(x), gen.StListStar()), gen.Chain(kw(x), gen.StStar()), gen.Func("length", kw(x)))
+			kts = append(kts, kw(x), gen.Not(kw(x)), gen.Chain(kw(x), gen.StListStar()), gen.Chain(kw(x), gen.StStar()), gen.Func("length", kw(x)),
+				gen.Chain(kw(x), gen.StIndex(0)), gen.Chain(kw(x), gen.StFilter(gen.Current())), gen.Chain(kw(x), gen.StFlatten()), gen.Chain(kw(x), gen.StSliceS("1", "", "")), gen.Chain(gen.Paren(kw(x)), gen.StIndex(0)), gen.Chain(gen.Field("a"), gen.Step{K: gen.SField, Name: x}, gen.StIndex(0)),
+				gen.MultiList(kw(x), gen.Chain(kw(x), gen.StIndex(0))), gen.Pipe(kw(x), gen.Chain(nil, gen.StIndex(0))), gen.Or(kw(x), gen.Chain(nil, gen.StIndex(0))))
 		}
 		// a star in positions where it is an expression of its own
 		star := func() *gen.Expr { return gen.Chain(nil, gen.StStar()) }
@@ -510,7 +512,7 @@ func c03(r *mon.Run) {
 			// parenthesised arguments in front of an expression reference
 			gen.Func("sort_by", gen.Paren(gen.Field("a")), gen.ExpRef(gen.Field("b"))), gen.Func("map", gen.ExpRef(gen.Paren(gen.Field("a"))), gen.Paren(gen.Field("b"))), gen.Func("max_by", gen.Paren(gen.Or(gen.Field("a"), gen.Field("b"))), gen.ExpRef(gen.Field("b"))),
 			gen.Func("not_null", gen.Paren(gen.Field("a")), gen.Func("sort_by", gen.Field("a"), gen.ExpRef(gen.Field("b")))), gen.Func("sort_by", gen.Func("to_array", gen.Paren(gen.Field("a"))), gen.ExpRef(gen.Paren(gen.Field("b")))))
-		kwDoc := docs.J(`{"true":[{"a":1,"true":2},{"a":2,"null":1}],"false":{"a":0,"false":"f"},"null":1,"a":[{"b":1,"true":1},{"b":null,"c":2}],"b":1}`)
+		kwDoc := docs.J(`{"not":[7,8],"and":[[1],2],"or":{"a":[3]},"true":[{"a":1,"true":2},{"a":2,"null":1}],"false":{"a":0,"false":"f"},"null":1,"a":[{"b":1,"true":1},{"b":null,"c":2}],"b":1}`)
 		ws = append(ws, mon.Workload{Name: "operands-called-true-false-null-and-bare-stars", N: len(kts), Batch: 100,
 			Do: func(i int, t *mon.Tally) {
 				c03Structural(r, t, "operands-called-true-false-null-and-bare-stars", i, kts[i])
